@@ -314,6 +314,73 @@ def theorem_domain(ctx, histories):
     return dict(tally), samples
 
 
+def derive_length_case(args):
+    """DeriveKey through the engine with the REAL cryptography backend at the numeric edges of the derived length, for
+    every derivation method and hash: 1, the digest size and its neighbours, 255 x digest size (HKDF's limit) and its
+    neighbours, 255 x block size and its neighbours, 2^16 +- 1 bytes.  Well-formed requests: success or a specific
+    error, never General Failure, and nothing raised inside the engine."""
+    import hashlib
+    import json
+    import impl_engine as IE
+    method, hcode = args
+    hn = {3: "md5", 4: "sha1", 5: "sha224", 6: "sha256", 7: "sha384", 8: "sha512"}[hcode]
+    h = hashlib.new(hn)
+    ds, bs = h.digest_size, h.block_size
+    lens = sorted(set([1, ds - 1, ds, ds + 1, 255 * ds - 1, 255 * ds, 255 * ds + 1, 255 * bs - 1, 255 * bs, 255 * bs + 1,
+                       1000, 65535, 65536, 65537]))
+    E = IE.ImplEngine(scripted_crypto=False)
+    fails, n = [], 0
+    try:
+        def req(items, v=14):
+            return E.handle({"cmd": "req", "now": 1000, "id": {"user": "alice", "groups": None},
+                             "req": {"version": v, "ts": None, "async": None, "bopt": None, "maxsize": None, "items": items}})
+        A = lambda nm, k, v: {"name": nm, "index": None, "value": {"k": k, "v": v}}
+        r = req([{"op": "register", "bid": None, "crypto": None, "otype": 2,
+                  "tmpl": {"tnames": 0, "attrs": [A("Cryptographic Usage Mask", "int", 0x200 | 4 | 8)]},
+                  "obj": {"otype": 2, "value": "0b" * 32, "alg": 3, "len": 256, "format": 1, "subtype": None}}])
+        base = r["results"][0]["data"]["uid"]
+        req([{"op": "activate", "bid": None, "crypto": None, "uid": base}])
+        for nbytes in lens:
+            it = {"op": "deriveKey", "bid": None, "crypto": None, "otype": 7, "uids": [base],
+                  "tmpl": {"tnames": 0, "attrs": [A("Cryptographic Length", "int", nbytes * 8)]}, "cp": {"hash": hcode}, "method": method}
+            if method == 1:
+                it.update(salt_hex="0a" * 8, iters=2)
+            elif method == 3:
+                it.update(ddata_hex="0c" * 8, salt_hex="0a" * 8)
+            elif method == 2:
+                it.update(ddata_hex="")
+            elif method == 5:
+                it.update(ddata_hex="0c" * 8)
+            else:
+                it.update(ddata_hex="0c" * min(nbytes, 4096), div_hex="0d" * 16, cp={"mode": 1, "padding": 3, "alg": 3, "hash": hcode})
+            o = req([it])
+            n += 1
+            res = (o.get("results") or [{}])[0]
+            if "rejected" in o or (res.get("status") == "fail" and res.get("reason") == 256) or E.internal_errors:
+                fails.append(("c13:derive-length-general-failure:method-%d:%s" % (method, hn),
+                              "DeriveKey method %d / %s for %d bytes (digest %d, block %d) with the real backend is answered %s; "
+                              "raised inside the engine: %s" % (method, hn, nbytes, ds, bs,
+                                                              json.dumps(o if "rejected" in o else res)[:200], E.internal_errors[:1])))
+                break
+    finally:
+        E.close()
+    return fails, n
+
+
+def derive_length_part(ctx):
+    import multiprocessing
+    args = [(m, hc) for m in (1, 2, 3, 4, 5) for hc in ((4, 6, 8) if ctx.tier == "quick" else (3, 4, 5, 6, 7, 8))]
+    with multiprocessing.get_context("fork").Pool(15) as pool:
+        res = pool.map(derive_length_case, args)
+    n = 0
+    for a, (fails, k) in zip(args, res):
+        n += k
+        for sig, what in fails:
+            ctx.report(sig, what, {"kind": "derive-length", "args": list(a)})
+    ctx.coverage["derive_length_requests"] = n
+    ctx.coverage["evaluations"] = (ctx.coverage.get("evaluations") or 0) + n
+
+
 def run(ctx):
     sample = 0.35 if ctx.tier == "quick" else 1.0
     grid = run_grid(ctx, sample)
@@ -343,6 +410,7 @@ def run(ctx):
     engine_check.scenario_run(ctx, "scen_engine.attr_commit_builder", MONITORS, nontrivial, RULE, 16, 300, 14,
                               "attribute_op_then_commit_part", seed_base=850000)
     zoo_pass(ctx)
+    derive_length_part(ctx)
     # the grid on a database file an EARLIER run of the server wrote (corpus/legacy_db)
     import legacy_db_check
     legacy_db_check.hook(ctx, "c13")
@@ -457,6 +525,11 @@ def replay(ctx, rep):
     import legacy_db_check
     if legacy_db_check.is_mine(rep):
         return legacy_db_check.replay(ctx, rep)
+    if (rep.get("replay") or {}).get("kind") == "derive-length":
+        fails, _n = derive_length_case(tuple(rep["replay"]["args"]))
+        for sig, what in fails:
+            print("  %s: %s" % (sig, what[:500]))
+        return not fails
     if (rep.get("replay") or {}).get("kind") == "zoo":
         rr = zoo_case(tuple(rep["replay"]["args"]))
         for sig, what in rr["fails"]:
